@@ -1,12 +1,14 @@
 (* Props/C08.v — Path renames are complete, conflict-free and composable.  Statements only.
    namefn is ANY function computing the new name of an entry (variant table, resolver, coercion). *)
-From RN Require Import Base.Bytes Model.Fs Model.ApplyModel Model.Renames Proofs.RenameP Proofs.RenameP2 Proofs.RenamesP.
+From RN Require Import Base.Bytes Model.StyleDef Model.CaseModel Model.CaseSpec Model.Fs Model.ApplyModel Model.Renames Model.Compound Model.Coercion Model.PathName.
+From RN Require Import Proofs.RenameP Proofs.RenameP2 Proofs.RenamesP Proofs.StandaloneP Proofs.CoercionP Proofs.PathNameP.
+Close Scope N_scope.
 
 (* every scheduled rename belongs to a listed entry of an enabled kind, changes exactly that entry's own
    name component, to a different name *)
 Theorem C08_plan_listing_shape : forall namefn rf rd l r,
   In r (plan_listing namefn rf rd l) ->
-  shape r /\ ar_new r <> ar_path r /\
+  RenameP.shape r /\ ar_new r <> ar_path r /\
   exists e, In e l /\ ar_path r = en_path e /\ ar_dir r = en_dir e /\ (if en_dir e then rd else rf) = true.
 Proof. exact plan_listing_shape. Qed.
 
@@ -33,7 +35,7 @@ Proof. exact without_conflicts_distinct_targets. Qed.
 (* nested renames compose: after apply every entry sits at the path obtained by applying its ancestors'
    renames and its own, and nothing else has moved (the rename-stage theorem) *)
 Theorem C08_compose : forall rs t,
-  (forall r, In r rs -> shape r) ->
+  (forall r, In r rs -> RenameP.shape r) ->
   NoDup (map ar_path rs) ->
   (forall r1 r2, In r1 rs -> In r2 rs -> ar_new r1 = ar_new r2 -> ar_path r1 = ar_path r2) ->
   fs_ok t rs ->
@@ -44,6 +46,76 @@ Theorem C08_compose : forall rs t,
     /\ forall q n, lookup t q = Some n -> lookup (s_fs s') (final_path rs q) = Some n.
 Proof. exact rename_stage_fs_no_case_only. Qed.
 
+(* --- the new-name function itself (Model/PathName.v = rename.rs::determine_filename_replacement + the new-name part of
+   plan_renames: first key of the variant table, in byte order, that occurs in the name; every occurrence of that key
+   replaced; then, in Auto mode, coercion::apply_coercion (Model/Coercion.v, the whole of coercion.rs) may override the name).
+   Both models are tied differentially to the real planner / the real apply_coercion.  resolve_name (the ambiguity resolver)
+   is the only oracle left and none of these theorems consults it. --------------------------------------------------- *)
+
+(* with separator coercion off: a name that carries the term in an enabled visible style between text that holds no variant
+   (left_ok / right_ok: empty, or cut off from the occurrence by a byte no variant contains, and free of variants itself -
+   letters allowed, e.g. an extension or other words) gets the term rewritten in the same style and nothing else changed *)
+Theorem C08_new_name_same_style : forall acr defaults amb S0 S1 S sw rw styles,
+  wf_acr acr = true -> visible S0 = true -> visible S1 = true -> visible S = true ->
+  (2 <= length sw)%nat -> rw <> [] -> all_neutral acr sw = true -> all_neutral acr rw = true -> In S styles ->
+  forall (resolve_name : bytes -> bytes -> style) (repl pre post : bytes),
+  let vm := variant_map_core acr defaults [] [] false amb (to_style acr sw S0) (to_style acr rw S1) (Some styles) in
+  left_ok vm pre -> right_ok vm post ->
+  path_new_name_full acr resolve_name false vm repl (pre ++ to_style acr sw S ++ post)
+  = Some (pre ++ to_style acr rw S ++ post, false).
+Proof. exact path_name_off_barrier. Qed.
+
+(* with coercion on (the default): the bare name, also behind a _ / __ prefix, keeps the style ... *)
+Theorem C08_new_name_same_style_auto_bare : forall acr defaults amb S0 S1 S sw rw styles,
+  wf_acr acr = true -> visible S0 = true -> visible S1 = true -> visible S = true ->
+  (2 <= length sw)%nat -> rw <> [] -> all_neutral acr sw = true -> all_neutral acr rw = true -> In S styles ->
+  forall (resolve_name : bytes -> bytes -> style) (repl : bytes) (pre : list N),
+  pre = [] \/ pre = [95%N] \/ pre = [95%N; 95%N] ->
+  path_new_name_full acr resolve_name true
+    (variant_map_core acr defaults [] [] false amb (to_style acr sw S0) (to_style acr rw S1) (Some styles)) repl
+    (pre ++ to_style acr sw S) = Some (pre ++ to_style acr rw S, false).
+Proof. exact path_name_auto_bare. Qed.
+
+(* ... and for a name with letter-free surroundings the result is EITHER the same-style name OR the replacement re-rendered
+   in the style apply_coercion detected for the whole name, flagged coercion_applied: the only way Auto leaves the style
+   (oldName_2 -> new_name_2 is the documented separator coercion; witnesses in Proofs/PathNameP.v) *)
+Theorem C08_new_name_auto_shape : forall acr defaults amb S0 S1 S sw rw styles,
+  wf_acr acr = true -> visible S0 = true -> visible S1 = true -> visible S = true ->
+  (2 <= length sw)%nat -> rw <> [] -> all_neutral acr sw = true -> all_neutral acr rw = true -> In S styles ->
+  forall (resolve_name : bytes -> bytes -> style) (repl pre post : bytes),
+  noalpha pre = true -> noalpha post = true ->
+  let vm := variant_map_core acr defaults [] [] false amb (to_style acr sw S0) (to_style acr rw S1) (Some styles) in
+  let name := pre ++ to_style acr sw S ++ post in
+  (co_apply_coercion acr name (to_style acr sw S) (to_style acr rw S) = None /\
+   path_new_name_full acr resolve_name true vm repl name = Some (pre ++ to_style acr rw S ++ post, false)) \/
+  (exists r partial T,
+     co_apply_coercion acr name (to_style acr sw S) (to_style acr rw S) = Some (r, partial, T) /\
+     mixed_or_dot T = false /\ r = pre ++ co_render (co_tokenize (to_style acr rw S)) T ++ post /\
+     path_new_name_full acr resolve_name true vm repl name = Some (r, true)).
+Proof. exact path_name_auto_shape. Qed.
+
+(* completeness: such an entry IS scheduled (coercion off), with exactly that new path; a name without any variant is not *)
+Theorem C08_scheduled_same_style : forall acr defaults amb S0 S1 S sw rw styles,
+  wf_acr acr = true -> visible S0 = true -> visible S1 = true -> visible S = true ->
+  (2 <= length sw)%nat -> rw <> [] -> all_neutral acr sw = true -> all_neutral acr rw = true -> In S styles ->
+  to_style acr rw S <> to_style acr sw S ->
+  forall (resolve_name : bytes -> bytes -> style) (repl : bytes) rf rd l e parent pre post,
+  In e l -> en_path e = parent ++ [pre ++ to_style acr sw S ++ post] -> (if en_dir e then rd else rf) = true ->
+  noalpha pre = true -> noalpha post = true ->
+  In {| ar_path := en_path e; ar_new := parent ++ [pre ++ to_style acr rw S ++ post]; ar_dir := en_dir e |}
+     (plan_listing (path_new_name acr resolve_name false
+        (variant_map_core acr defaults [] [] false amb (to_style acr sw S0) (to_style acr rw S1) (Some styles)) repl) rf rd l).
+Proof. exact path_rename_scheduled_off. Qed.
+
+Theorem C08_no_variant_no_rename : forall acr resolve_name coerce_auto vm repl name,
+  (forall k, In k (keys vm) -> Renames.contains k name = false) -> path_new_name acr resolve_name coerce_auto vm repl name = None.
+Proof. exact no_key_no_rename. Qed.
+
+Print Assumptions C08_new_name_same_style.
+Print Assumptions C08_new_name_same_style_auto_bare.
+Print Assumptions C08_new_name_auto_shape.
+Print Assumptions C08_scheduled_same_style.
+Print Assumptions C08_no_variant_no_rename.
 Print Assumptions C08_plan_listing_shape.
 Print Assumptions C08_each_entry_once.
 Print Assumptions C08_roots_deduplicated.
